@@ -552,6 +552,14 @@ impl<'a, V: RewriteVisitor<'a>> Visitor<'a, RelationWithRewritingRule<'a>, Relat
 impl<'a> RelationWithRewritingRule<'a> {
     /// Rewrite the RelationWithRewritingRule
     pub fn rewrite<V: RewriteVisitor<'a>>(&'a self, rewrite_visitor: V) -> RelationWithDpEvent {
+        #[cfg(feature = "verif-hooks")]
+        crate::verif_hooks::emit(
+            "rewrite_begin",
+            vec![
+                ("name", self.relation().name().into()),
+                ("rule", self.attributes().to_string().into()),
+            ],
+        );
         self.accept(rewrite_visitor)
     }
 }
